@@ -108,12 +108,17 @@ Definition line_class (b : bytes) : Z :=
   if fuzzy_line b 0 then 2 else if max_line b 0 0 <? FUZZY_LO then 0 else 1.
 (* Short-line inputs: the parser model of C09/C10, projected to the observable part of the table.
    Inputs with over-long lines: the line recogniser above (parse_bytes has no recovery mode). *)
+(* round 5: bodies with a 6-60 KB line (a record that does not fit the parser's 10 KiB buffer) are generated from the
+   subset of the format the line recogniser knows; C09's run-length recogniser needs seconds per such line *)
+Definition LITE_FROM : Z := 6000.
+Definition NEVER : Z := 1000000000.      (* no line is that long: nothing is discarded *)
 Definition parse_drv (b : bytes) : option (table * option bytes) :=
-  if max_line b 0 0 <? FUZZY_LO then
+  if max_line b 0 0 <? LITE_FROM then
     match parse_bytes b with
     | Some (t, u) => Some ((Z.of_nat (length (t_funcs t)), Z.of_nat (length (t_publics t))), u)
     | None => None
     end
+  else if max_line b 0 0 <? FUZZY_LO then parse_lite_g NEVER b
   else parse_lite b.
 Definition early_drv (b : bytes) : bool := false.
 
@@ -194,3 +199,51 @@ Definition sh_result (s : sh_state) (i : Z) : Z * (Z * Z) * option bytes :=
   | _ => (4, (0, 0), None)
   end.
 Definition sh_fs (s : sh_state) : mfs := ms_fs s.
+
+(* ---------------------------------------------------------------- the streaming fetch (round 5)
+   Entry point of the correspondence run for C16/Stream.v: one download = create_cache_file, parse_async's loop
+   over the scripted body with the tee callback, commit_cache_file.  Two recogniser instances of the SAME generic
+   [stream_fetch] (the theorems of C16/StreamProofs.v hold for every recogniser): the model of the real parser
+   (C09/Grammar.v) for bodies whose lines are shorter than LITE_FROM, and the line recogniser above for the
+   generated bodies with longer lines (the loop -- buffer growth, EOF detection, recovery -- is the same; only
+   parse_more's verdict on a complete line comes from the small recogniser). *)
+From RM Require Import C09.Model C10.Stream C16.Stream C16.StreamInst.
+Definition llen_lite (l : bytes) : Z := Z.of_nat (length l) + 1.
+Definition recog_lite (s : pst) (l : bytes) : pst + Z :=
+  match line_step NEVER s l with Some s' => inl s' | None => inr 1 end.
+(* a line discarded by the recovery mode: `parser.lines += 1` *)
+Definition bump_lite (s : pst) : pst := mkpst (p_nf s) (p_np s) (p_url s) (p_ctx s) false.
+Definition finish_lite (s : pst) : option table := Some (p_nf s, p_np s).
+Definition split_lite (b : bytes) : list bytes * Z :=
+  let '(ls, tl) := lines_of b [] in (ls, Z.of_nat (length tl)).
+
+Definition stream_fetch_lite (p : path) (e : env) (u : bytes) (f : fs) (b : bytes) (script : list sev) : fs * fres table :=
+  stream_fetch bytes llen_lite pst pst0 recog_lite bump_lite (fun _ => 0) table finish_lite split_lite p e u f b script.
+
+Definition script_of (sizes : list Z) (failing : bool) : list sev :=
+  map SChunk sizes ++ (if failing then [SFail] else []).
+
+(* result kind (0 Ok, 1 Err code, 2 panic, 3 out of fuel), (#FUNC, #PUBLIC) or (code, 0), file system afterwards *)
+Definition stream_run (e : env) (u : bytes) (f : fs) (b : bytes) (sizes : list Z) (failing : bool)
+  : (Z * (Z * Z)) * fs :=
+  let script := script_of sizes failing in
+  if max_line b 0 0 <? LITE_FROM then
+    let '(f', r) := stream_fetch_c P0 e u f b script in
+    (match r with
+     | FOk t => (0, (Z.of_nat (length (t_funcs t)), Z.of_nat (length (t_publics t))))
+     | FErr c => (1, (c, 0))
+     | FPanic => (2, (0, 0))
+     | FFuel => (3, (0, 0))
+     end, f')
+  else
+    let '(f', r) := stream_fetch_lite P0 e u f b script in
+    (match r with
+     | FOk t => (0, t)
+     | FErr c => (1, (c, 0))
+     | FPanic => (2, (0, 0))
+     | FFuel => (3, (0, 0))
+     end, f').
+
+Definition fs_cache (f : fs) : option node := cache f P0.
+Definition fs_tmp (f : fs) : list Z := map (fun e => Z.of_nat (length (snd e))) (tmp f).
+Definition fs_cdir (f : fs) : bool := cdir f P0.
